@@ -301,9 +301,74 @@ def rule_d(ctx):
     ctx.floor(R, 9)
 
 
+def rule_e(ctx):
+    R = "C17.e"
+    ctx.rule(R, "option dictionaries belong to the caller: in the classes that store an `options` / `kwargs` dictionary they were given, no object "
+             "taken out of it (options.get(key, ...), options[key] -- directly, through a local or through an attribute it was stored in "
+             "un-copied) is modified in place (setdefault / update / pop / item store): the caller's nested dictionary would gain or lose entries")
+    from .common import _inplace_writes
+
+    m = ctx.model
+    n_cls = 0
+    for mn in ("darsia.measure.wasserstein", "darsia.measure.emd", "darsia.restoration.tvd", "darsia.restoration.resize", "darsia.multi_image_analysis.concentrationanalysis"):
+        if mn not in m.modules:
+            continue
+        for k in m.mod(mn).classes.values():
+            holders = set()   # attributes that hold the caller's dictionary
+            for f in k.methods.values():
+                if not f.params:
+                    continue
+                me = f.params[0]
+                for st in ast.walk(f.node):
+                    if isinstance(st, ast.Assign) and isinstance(st.value, ast.Name) and st.value.id in ("options", "kwargs") and st.value.id in f.params + ([f.node.args.kwarg.arg] if f.node.args.kwarg else []):
+                        for t in st.targets:
+                            if isinstance(t, ast.Attribute) and isinstance(t.value, ast.Name) and t.value.id == me and not (f.node.args.kwarg and st.value.id == f.node.args.kwarg.arg):
+                                holders.add(t.attr)   # a **kwargs dict is fresh per call; a positional dict is the caller's
+            if not holders:
+                continue
+            n_cls += 1
+            ctx.instance(R)
+
+            def taken_from(e, me):
+                """expression that hands out an object stored inside one of the holder dictionaries (no copy)"""
+                while True:
+                    if isinstance(e, ast.Call) and isinstance(e.func, ast.Attribute) and e.func.attr == "get" and isinstance(e.func.value, ast.Attribute) \
+                            and isinstance(e.func.value.value, ast.Name) and e.func.value.value.id == me and e.func.value.attr in holders:
+                        return True
+                    if isinstance(e, ast.Subscript) and isinstance(e.value, ast.Attribute) and isinstance(e.value.value, ast.Name) and e.value.value.id == me and e.value.attr in holders:
+                        return True
+                    return False
+            nested_attrs = set()
+            for f in k.methods.values():
+                if not f.params:
+                    continue
+                me = f.params[0]
+                for st in ast.walk(f.node):
+                    if isinstance(st, ast.Assign) and taken_from(st.value, me):
+                        for t in st.targets:
+                            if isinstance(t, ast.Attribute) and isinstance(t.value, ast.Name) and t.value.id == me:
+                                nested_attrs.add(t.attr)
+            bad = []
+            for f in k.methods.values():
+                if not f.params:
+                    continue
+                me = f.params[0]
+                locals_ = {t.id for st in ast.walk(f.node) if isinstance(st, ast.Assign) and taken_from(st.value, me) for t in st.targets if isinstance(t, ast.Name)}
+
+                def is_t(e, me=me, locals_=locals_):
+                    return (isinstance(e, ast.Name) and e.id in locals_) or (isinstance(e, ast.Attribute) and isinstance(e.value, ast.Name) and e.value.id == me and e.attr in nested_attrs) or taken_from(e, me)
+                for w in _inplace_writes(f.node, is_t):
+                    bad.append((f, w))
+            ctx.ob(R, k.qname, f"{k.name}: no object taken out of the stored option dictionary ({sorted(holders)}) is modified in place", not bad,
+                   "; ".join(f"{f.short}: `{norm(w)[:70]}`" for f, w in bad[:3]) + " -- the nested dictionary is the caller's own object", bad[0][1] if bad else k.node, evidence=True)
+    ctx.need(n_cls >= 1, "no class storing an options dictionary found")
+    ctx.floor(R, 1)
+
+
 def run(ctx):
     E = Effects(ctx.model)
     rule_a(ctx, E)
     rule_b(ctx, E)
     rule_c(ctx, E)
     rule_d(ctx)
+    rule_e(ctx)
